@@ -72,6 +72,7 @@ pub fn part() -> Box<dyn Part> {
                     1 => (0..t2.len()).prop_map(move |i| t2[i].to_uppercase()),
                     1 => Just("queue".to_string()),
                     2 => "[a-zA-Z_]{1,16}",
+                    1 => crate::props::simgen::wild_name(),
                 ],
                 1..=6usize,
             )
